@@ -81,5 +81,7 @@ MUTATIONS = [
     ("acr122_cmd_accept", "response code check dropped", "frame[0] == 0xD5 and frame[1] == cmd_code + 1", "frame[0] == 0xD5"),
     ("acr122_cmd_accept", "status word", "frame[-2] == 0x90 and frame[-1] == 0x00", "frame[-2] == 0x90 or frame[-1] == 0x00"),
     ("acr122_cmd_accept", "payload bounds", "return frame[2:-2]", "return frame[2:-1]"),
+    ("acr122_ccid_accept", "message type test gains an operand", "if frame[0] != 0x80:", "if frame[0] != 0x80 and len(frame) > 10:"),
+    ("acr122_cmd_accept", "status word test gains an operand", "if not (frame[-2] == 0x90 and frame[-1] == 0x00):", "if not (frame[-2] == 0x90 and frame[-1] == 0x00 or len(frame) == 4):"),
     ("acr122_cmd_build", "NEUTRAL hex literal spelling", "0x00, 0x00, 0x00, len(frame)", "0, 0, 0, len(frame)"),
 ]
